@@ -10,6 +10,9 @@ import (
 )
 
 // hx turns "x57 x90 'abc' Z" style text into bytes: xNN = byte, 'text' = literal, bare letters = ASCII.
+// Hx is exported for the workloads.
+func Hx(s string) []byte { return hx(s) }
+
 func hx(s string) []byte {
 	var out []byte
 	for _, tok := range strings.Fields(s) {
